@@ -11,6 +11,9 @@
 #include <cstdlib>
 #include <cstdio>
 #include <gmp.h>
+#include <signal.h>
+#include <unistd.h>
+#include <sys/time.h>
 #include "gmp++/gmp++.h"
 #include "givrational.h"
 #include "qfield.h"
@@ -74,6 +77,8 @@ static std::string run_qw(const std::string& op, const std::string& pat, const s
     else if (op == "neg" && np == 2) ret = &Q.neg(P(0), P(1));
     else if (op == "inv" && np == 2) ret = &Q.inv(P(0), P(1));
     else if (op == "assign" && np == 2) ret = &Q.assign(P(0), P(1));
+    else if (op == "negin" && np == 1) ret = &Q.negin(P(0));
+    else if (op == "invin" && np == 1) ret = &Q.invin(P(0));
     else return "UNKNOWN-QW-OP";
     std::string out = str(P(0));
     if (ret != &P(0)) out += " BAD-RETURNED-REFERENCE";
@@ -317,7 +322,20 @@ static std::string run(const std::string& v, const std::vector<std::string>& a) 
     return "UNKNOWN-VARIANT";
 }
 
-int main() {
+// per-case CPU-time watchdog: a call that does not return within the budget (CPU seconds of THIS process, user + system,
+// hence independent of the machine load) ends the process with the marker line below; the check then knows the case
+// (= number of complete lines before the marker), re-runs it alone with a larger budget and goes on with the rest.
+static void on_cpu_budget(int) {
+    const char msg[] = "DOES-NOT-RETURN\n";
+    ssize_t w = write(1, msg, sizeof msg - 1); (void) w;
+    _exit(97);
+}
+
+int main(int argc, char** argv) {
+    long budget = 20;
+    if (argc > 1) budget = atol(argv[1]);
+    if (budget < 1) budget = 1;
+    signal(SIGPROF, on_cpu_budget);
     std::string line;
     while (std::getline(std::cin, line)) {
         std::istringstream is(line);
@@ -326,9 +344,15 @@ int main() {
         std::string t; while (is >> t) a.push_back(t);
         if (red == "1") Rational::SetReduce(); else Rational::SetNoReduce();
         std::string out;
+        struct itimerval on = { {0, 0}, {budget, 0} }, off = { {0, 0}, {0, 0} };
+        setitimer(ITIMER_PROF, &on, NULL);
         try { out = run(v, a); }
-        catch (...) { out = "THROW"; }
-        std::cout << out << "\n";
+        catch (GivMathDivZero&) { out = "THROW"; }
+        catch (GivError&) { out = "THROW-OTHER-GIVERROR"; }
+        catch (std::exception& e) { out = std::string("EXN-std ") + e.what(); }
+        catch (...) { out = "EXN-unknown"; }
+        setitimer(ITIMER_PROF, &off, NULL);
+        std::cout << out << "\n" << std::flush;      // flushed per case: the lines before a watchdog marker are complete
     }
     return 0;
 }
